@@ -332,7 +332,7 @@ def run_binding(ctx, out):
     from .lib import coqio
     from .lib.runner import Failure
     rng = ctx.rng
-    n = ctx.budget(100, 800)
+    n = ctx.budget(150, 1000)
     cases = [{"ds": c["ds"], "ret": c["ret"]} for c in ctx.corpus() if "ds" in c]
     while len(cases) < n:
         cases.append(gen_bind_case(rng))
@@ -390,11 +390,11 @@ def run_binding(ctx, out):
 
 
 def gen13(rng, pool):
-    return c11.gen_history(rng, pool, flaky_p=0.5, nflaky=(1, 2, 2, 3), p_plant=0.08, p_rerun=0.15)
+    return c11.gen_history(rng, pool, flaky_p=0.5, nflaky=(1, 2, 2, 3), p_plant=0.08, p_rerun=0.15, p_cf=0.0)
 
 
 def run(ctx):
-    out = c11.run(ctx, prop="C13", pool=POOL13, gen=gen13, rule=RULE, budget=(30, 150))
+    out = c11.run(ctx, prop="C13", pool=POOL13, gen=gen13, rule=RULE, budget=(40, 200))
     return run_binding(ctx, out)
 
 
